@@ -187,7 +187,7 @@ def make_xf(field_names, variant_names, rot, absolutize=True, exact=False, metho
         t._method_aliases = aliases
         for vi, v in enumerate(t.variants):
             if variant_names and t.kind == 'enum':
-                v.name = variant_names[(rot + vi) % len(variant_names)]
+                v.name = variant_names[((0 if exact else rot) + vi) % len(variant_names)]
             used = set()
             for i, f in enumerate(v.fields):
                 if field_names and f.name is not None:
@@ -579,6 +579,8 @@ def contexts(fields, upper, tier, seed):
     # presentation variants): a template that binds a field under its own name would shadow `f`, `builder`, `other`, ..
     ctx.append(('names-generated-locals-a', False, False, ['f', 'builder', 'arg', 'other', 'state', 'source'], None, True))
     ctx.append(('names-generated-locals-b', True, False, ['arg', 'other', 'state', 'source', 'f', 'builder'], None, True))
+    # variants named like the associated items the generated signatures mention (`Self::Target` next to a variant `Target` is ambiguous)
+    ctx.append(('variants-named-like-associated-items', False, False, None, ['Target', 'Output', 'Item', 'Error'], True))
     # fields named like the items the type's own default expressions call (`src(3)` next to a field `src`): an expansion that binds
     # field values to locals named after the fields would capture them
     ctx.append(('names-of-expression-items', False, False, ['src', 'D', 'dflt'], None, True, False, None, True))
@@ -622,7 +624,7 @@ def gen(tier, seed):
             if tag.startswith('method-named:'):
                 if not name.startswith(METHOD_IDENT_USERS[tag.split(':')[1]]):
                     continue
-            elif tier == 'quick' and (ti + ci) % 2 == 1 and tag not in ('shadow', 'inherent-methods', 'raw-identifiers', 'names-of-expression-items', 'names-generated-locals-a', 'names-generated-locals-b'):
+            elif tier == 'quick' and (ti + ci) % 2 == 1 and tag not in ('shadow', 'inherent-methods', 'raw-identifiers', 'names-of-expression-items', 'names-generated-locals-a', 'names-generated-locals-b', 'variants-named-like-associated-items'):
                 continue
             model.TYPE_WRAP = make_wrap(shadow, glob, inherent)
             try:
